@@ -50,7 +50,7 @@ def plan(tier):
     cells, cum = _space(tier)
     E = cum[-1]
     if tier == 'thorough':
-        return {'n': E + 600000, 'chunk': 2000, 'timeout': 60, 'selftest': 60, 'budget_s': 12000, 'minimize_s': 300}
+        return {'n': E + 600000, 'chunk': 2000, 'timeout': 60, 'selftest': 60, 'budget_s': 3000, 'minimize_s': 300}
     return {'n': E + 12000, 'chunk': 500, 'timeout': 60, 'selftest': 16, 'budget_s': 900, 'minimize_s': 90}
 
 
